@@ -1,6 +1,7 @@
 import Drv.Json
 import Spec.Diff
 import Model.Diff.DiffV
+import Model.Diff.Batch
 namespace Drv.Diff
 open Lean Model.Diff Spec.Diff
 
@@ -187,7 +188,8 @@ def handle (op : String) (j : Json) : Option Json :=
     | _ => some (errJ "bad-default")
   | "diff.diff" =>
     match schemaOfJson (getObj j "a"), schemaOfJson (getObj j "b") with
-    | some a, some b => some (obj [("ops", opsToJson (diffV (overridesOfJson j) (cfgOfJson j) (reflect (createAll a)) b))])
+    | some a, some b => some (obj [("ops", opsToJson (diffV (overridesOfJson j) (cfgOfJson j) (reflect (createAll a)) b)),
+                                   ("pkStable", Json.bool (pkStableB a b))])
     | _, _ => some (errJ "bad-schema")
   | "diff.converge" =>
     match schemaOfJson (getObj j "a"), schemaOfJson (getObj j "b") with
@@ -197,6 +199,7 @@ def handle (op : String) (j : Json) : Option Json :=
       let ops := diffV ov cfg (reflect (createAll a)) b
       let db := applyAll (createAll a) ops
       some (obj [("ops", opsToJson ops), ("second", opsToJson (diffV ov cfg (reflect db) b)),
+                 ("recreates", strs (recreatedTables ops)), ("pkStable", Json.bool (pkStableB a b)),
                  ("db", Json.arr (db.map dtableToJson).toArray)])
     | _, _ => some (errJ "bad-schema")
   | "diff.spec_quiet" =>
